@@ -13,6 +13,7 @@ import (
 	"encoding/json"
 	"fmt"
 	"io"
+	"sync"
 	"time"
 
 	"github.com/aws/aws-sdk-go/aws"
@@ -242,3 +243,116 @@ func probeStoredPlaintext(pass []byte) string {
 	}
 	return "ok"
 }
+
+// probeDifferentPassphrase: data written under one passphrase must not be readable under another
+// one (also not one that differs only in edge white space or case): Open or Get must fail.
+func probeDifferentPassphrase(p1, p2 []byte) string {
+	st := newFakeS3()
+	cfg := kv.Config{
+		Storage:       &kv.S3BucketInfo{EndpointURL: "fake", BucketName: "b", Prefix: "enc"},
+		KeysLike:      "key",
+		ValuesLike:    "value",
+		NodeEncryptor: kv.V1NodeEncryptor(p1),
+	}
+	ctx := context.Background()
+	db, err := kv.Open(ctx, st, cfg, kv.OpenOptions{}, time.Unix(1700000000, 0))
+	if err != nil {
+		return "FAIL open: " + err.Error()
+	}
+	if err := db.Set(ctx, time.Unix(1700000001, 0), "k", "SECRETVALUE-abcdefghij"); err != nil {
+		return "FAIL set: " + err.Error()
+	}
+	if _, err := db.Commit(ctx); err != nil {
+		return "FAIL commit: " + err.Error()
+	}
+	other := cfg
+	other.NodeEncryptor = kv.V1NodeEncryptor(p2)
+	var got string
+	ok := false
+	panicked := catch(func() {
+		if db2, err := kv.Open(ctx, st, other, kv.OpenOptions{ReadOnly: true}, time.Unix(1700000002, 0)); err == nil {
+			if found, err := db2.Get(ctx, "k", &got); err == nil && found {
+				ok = true
+			}
+		}
+	})
+	if panicked {
+		return "FAIL reading with a different passphrase panics"
+	}
+	if ok {
+		return fmt.Sprintf("FAIL data written under passphrase %q is returned under passphrase %q: %q", p1, p2, got)
+	}
+	return "ok"
+}
+
+// probeInMemoryBucket (C19): several connections of this process create, at the same moment, their
+// own table on the default in-memory bucket (no s3_bucket), each under its own prefix, insert a row
+// and commit.  Afterwards every connection refreshes and must still see its row, and one more
+// connection opening each prefix read-only must see it too (one bucket for the whole process).
+func probeInMemoryBucket() string {
+	const n = 8
+	conns := make([]*sql.DB, n)
+	for i := range conns {
+		db, err := sql.Open("sqlite3", ":memory:")
+		if err != nil {
+			return "FAIL open: " + err.Error()
+		}
+		db.SetMaxOpenConns(1)
+		defer db.Close()
+		conns[i] = db
+	}
+	run := nextCounter()
+	start := make(chan struct{})
+	errs := make([]error, n)
+	var wg sync.WaitGroup
+	for i := 0; i < n; i++ {
+		wg.Add(1)
+		go func(i int) {
+			defer wg.Done()
+			<-start
+			if _, err := conns[i].Exec(fmt.Sprintf("create virtual table im%d_%d using s3db (s3_prefix='im%d_p%d', columns='a primary key, b')", run, i, run, i)); err != nil {
+				errs[i] = err
+				return
+			}
+			_, errs[i] = conns[i].Exec(fmt.Sprintf("insert into im%d_%d values (%d, 'row')", run, i, i))
+		}(i)
+	}
+	close(start)
+	wg.Wait()
+	for i, err := range errs {
+		if err != nil {
+			return fmt.Sprintf("FAIL connection %d: %v", i, err)
+		}
+	}
+	count := func(db *sql.DB, table string) int {
+		var c int
+		if err := db.QueryRow("select count(*) from " + table).Scan(&c); err != nil {
+			return -1
+		}
+		return c
+	}
+	for i := 0; i < n; i++ {
+		if _, err := conns[i].Exec(fmt.Sprintf("select s3db_refresh('im%d_%d')", run, i)); err != nil {
+			return fmt.Sprintf("FAIL refresh %d: %v", i, err)
+		}
+		if c := count(conns[i], fmt.Sprintf("im%d_%d", run, i)); c != 1 {
+			return fmt.Sprintf("FAIL connection %d sees %d rows of its own committed table after a refresh (expected 1)", i, c)
+		}
+	}
+	rd, err := sql.Open("sqlite3", ":memory:")
+	if err != nil {
+		return "FAIL open reader: " + err.Error()
+	}
+	rd.SetMaxOpenConns(1)
+	defer rd.Close()
+	for i := 0; i < n; i++ {
+		if _, err := rd.Exec(fmt.Sprintf("create virtual table rd%d_%d using s3db (readonly, s3_prefix='im%d_p%d', columns='a primary key, b')", run, i, run, i)); err != nil {
+			return fmt.Sprintf("FAIL reader create %d: %v", i, err)
+		}
+		if c := count(rd, fmt.Sprintf("rd%d_%d", run, i)); c != 1 {
+			return fmt.Sprintf("FAIL another connection of the process sees %d rows under prefix %d (expected 1): the connections are not on one bucket", c, i)
+		}
+	}
+	return "ok"
+}
+
